@@ -27,7 +27,7 @@ CHECKS = {
          "Application misuse that smoltcp documents as a panic (IP version mismatch on send) is kept out of the generators; DHCP events are observed but not applied so the IPv4 address stays static; the probe uses the link-local/IPv4 address because SLAAC may legitimately remove a global one; a poll that consumes more than 10 s of CPU time without returning is a violation (CPU-time watchdog, vkit::hang); wall-clock stalls without CPU consumption are exit 2, never a violation.",
          "DESIGN.md 3/C03"),
  "C04": ("model-based PBT: scripted TCP peer vs reference receiver, independent TCP codec",
-         "One socket is fed up to 200 generated segments placed around its advertised window by a scripted peer owning a fixed stream; a reference receiver built from the delivered segments and the windows read off the socket's own output checks: delivered bytes = stream prefix, no byte delivered that never arrived below the advertised edge, ACK never covers unreceived bytes/FIN, Finished only after all data, advertised edge within buffer. Exploration by random search with boundary-biased generators; no exhaustiveness claimed.",
+         "One socket is fed up to 200 generated segments placed around its advertised window by a scripted peer owning a fixed stream; a reference receiver built from the delivered segments and the windows read off the socket's own output checks: delivered bytes = stream prefix, no byte delivered that never arrived below the advertised edge, ACK never covers unreceived bytes/FIN, Finished only after all data, advertised edge within buffer, nothing sent beyond the peer's FIN is ever delivered or acknowledged. Exploration by random search with boundary-biased generators; no exhaustiveness claimed.",
          "Trusts vkit::indep TCP/IP codec; 'arrived in window' is a necessary condition only; peer never resets.",
          "DESIGN.md 3/C04"),
  "C05": ("invariant-over-history PBT: scripted TCP peer, every emitted segment checked by independent decoder",
